@@ -13,7 +13,22 @@ deciding check: every source is parsed by the REAL parser (harness qv_ast) and t
                 examples (corpus/c02_spec.txt with the documented results, and every fenced block),
                 corpus probes, and a type-directed generator (vplib/props/c02gen.py).
 There is NO theorem relating the Rust compiler's output to the evaluator (it would need a model of
-compiler.rs): that link is exactly the differential check."""
+compiler.rs): that link is exactly the differential check.
+
+Modelling decision R15 (star pattern over a union): docs/spec.md only says "`*` = all named fields"
+and is silent about a value whose static type is a union of differently-labelled tuples.  The
+meaning fixed by the F64 repair (hooks/fix_F64.msg) is adopted: every label of every variant is in
+scope and the labels the matched value does not carry are nil (also after a failed match).  The
+evaluator is untyped, so it records "a star pattern was matched in this scope" (a reserved
+environment entry, block-scoped) and reads a name that is not bound in such a scope as nil; the
+only imprecision (an OUTER binding named like a label that only another variant carries) is outside
+the fragment and avoided by the generator.
+
+Findings this check produced (F53c02, F64c02, F75, F76) or routed (F73) are repaired in /repo; their
+reproducers are must-pass regression probes in corpus/c02_probes.txt (expected = the spec value,
+compared with the real VM and the evaluator).  corpus/c02_known.txt holds reproducers of findings
+that are still `known` (none at the moment); the signature routing stays table-driven by
+known_findings.json (a `fixed` entry suppresses nothing)."""
 import collections, hashlib, os, re, unicodedata
 from vplib import sexpr, testsrc
 from vplib.common import VERIF, REPO
@@ -23,7 +38,7 @@ MANIFEST = dict(
     category="proof",
     text="partial. Coq theorems about the reference evaluator Lang.eval (fuelled big-step semantics of the core sequential language written from docs/spec.md): eval_fuel_mono (a finished result is stable under more fuel, for every judgement of the evaluator: the semantics is a partial function), chain_infallible, sequence_short_circuit, branch_fallthrough, consequence_commits, match_verdict (a match is Ok or []; on success the scope grows by the pattern's bindings, on failure by its static binders all nil), match_binds_only_binders, pmatch_extends, bare_binder_always_succeeds, block_scoping, closure_captures_by_value. normalize_preserves_eval is NOT attempted (Simplify.v is over Ast.v whose patterns/types are opaque; the evaluator has its own AST). NOT a theorem: that the Rust compiler's bytecode computes eval (no model of compiler.rs) — the statement compile_correct is kept as a comment in props/C02.v. That link is validated by differential execution: the real parser's AST is evaluated by the extracted evaluator and compared with real compile+run on test-suite sources (with the suite's expected strings as a third oracle), the spec's examples with their documented results, corpus probes and type-directed generated programs accepted by the real compiler.",
     design_ref="§5 C02",
-    note="Trusted: Coq kernel, extraction (ExtrOcamlBasic), OCaml driver (AST reader, atom interning), Rust harness qv_ast (AST dumper) and qvh::eval_source, Python differ/generator/shrinker. Out of the modelled fragment (reported as `unsupported`, counted): processes/select/spawn/send/self, resources/IO, refs, builtins other than integer add/subtract/multiply/divide/modulo/gcd/compare/abs/sqrt and binary concat/length, function/process/module types and type spreads inside type patterns, `^n` (n>0), context-inferred parameters of `#{..}` literals. Where static typing decides what the spec words dynamically (a variable whose type mixes callables and non-callables, type variables) the generator avoids the construct. The generator also avoids the known typing defects F13/F27 (C20/C01) and the shapes of the C02 findings this check produced or routes (F53c02 re-binding a name with a recorded narrowing, F64c02 unnamed star over a union of differently-labelled tuples, F73 misaligned locals after a failed branch, F75 callable field of a tuple containing a spread); their reproducers are in corpus/c02_known.txt and are matched by input signatures, table-driven by known_findings.json.",
+    note="Trusted: Coq kernel, extraction (ExtrOcamlBasic), OCaml driver (AST reader, atom interning), Rust harness qv_ast (AST dumper) and qvh::eval_source, Python differ/generator/shrinker. Out of the modelled fragment (reported as `unsupported`, counted): processes/select/spawn/send/self, resources/IO, refs, builtins other than integer add/subtract/multiply/divide/modulo/gcd/compare/abs/sqrt and binary concat/length, function/process/module types and type spreads inside type patterns, `^n` (n>0), context-inferred parameters of `#{..}` literals. Where static typing decides what the spec words dynamically (a variable whose type mixes callables and non-callables, type variables) the generator avoids the construct. The generator also avoids the known typing defects F13/F27 (C20/C01) and the shapes of the C02 findings this check produced or routes (F53c02 re-binding a name with a recorded narrowing, F64c02 unnamed star over a union of differently-labelled tuples, F73 misaligned locals after a failed branch, F75 callable field of a tuple containing a spread); all five are repaired in /repo and their reproducers are must-pass regression probes in corpus/c02_probes.txt; signature routing stays table-driven by known_findings.json.",
     technique="Coq proof (laws of the reference semantics) + differential execution of the extracted evaluator on the real parser's AST against the real compiler+VM, 3-way with the test-suite's expected values",
 )
 
@@ -517,11 +532,15 @@ def run(ctx):
                 third["evaluator==expected" if oke else "evaluator!=expected"] += 1
                 if okr and oke:
                     third["all-three-agree"] += 1
-                elif cat == "agree":
-                    # both sides agree with each other but not with the expectation: only a
+                elif cat == "agree" and kind != "corpus":
+                    # both sides agree with each other but not with the suite's expectation: only a
                     # formatting difference of the harness is possible; recorded, not a violation
                     third["both-differ-from-expected"] += 1
                     expected_mismatch.append({"origin": origin, "expected": exp, "printed": pr})
+                elif cat == "agree":
+                    # a corpus probe (documented spec result / regression probe of a repaired
+                    # finding) is MUST-PASS on both sides
+                    disagreements.append((c, real, ev, "corpus probe: expected %r; real prints %r, evaluator prints %r" % (exp, pr, pe)))
                 if (not okr or not oke) and cat != "DISAGREE" and cat != "agree":
                     disagreements.append((c, real, ev, "expected %r; real prints %r, evaluator prints %r" % (exp, pr, pe)))
         if cat in ("DISAGREE", "real-panic"):
